@@ -164,7 +164,9 @@ func (t tplTok) instance(r *Rng, good bool) string {
 	}
 	v := t.verb
 	if t.verb != "" && !good {
-		v = r.Pick([]string{"", ":other", t.verb + "x", strings.ToUpper(t.verb)})
+		// near-miss verbs: none, another one, a longer one, other case, one merely ENDING in the verb, the verb's
+		// letters without the colon
+		v = r.Pick([]string{"", ":other", t.verb + "x", strings.ToUpper(t.verb), ":un" + t.verb[1:], t.verb[1:], ":" + t.verb})
 	}
 	return s + v
 }
@@ -255,19 +257,36 @@ func genTable(r *Rng, router int, maxWs int) (TableSpec, []genRoute) {
 	all := []genRoute{}
 	nws := 1 + r.Intn(maxWs)
 	seenRoot := map[string]bool{}
+	var prevRoot, prevRootOf []tplTok
 	id := 1
 	for w := 0; w < nws; w++ {
 		used := map[string]bool{}
 		nroot := []int{0, 0, 1, 1, 1, 2, 2, 3}[r.Intn(8)]
 		var rootToks []tplTok
+		crossedRoot := false
 		if router == 1 && r.Pct(80) {
 			// RouterJSR311: mostly literal roots (the fragment C02/C03 are stated for)
 			for i := 0; i < nroot; i++ {
 				rootToks = append(rootToks, tplTok{kind: 0, text: r.Pick(litPool)})
 			}
+		} else if w > 0 && len(prevRoot) > 1 && r.Pct(40) {
+			crossedRoot = true
+			// a root crossing the previous one: same length, literal and plain-variable positions flipped at random
+			// (/{a}/x/y against /p/{c}/{d}: which one wins depends on the weights of the positions)
+			for k, pt := range prevRoot {
+				switch {
+				case pt.kind > 1 || pt.verb != "" || r.Bool():
+					rootToks = append(rootToks, pt)
+				case pt.kind == 0:
+					rootToks = append(rootToks, tplTok{kind: 1, name: "q" + itoa(w) + itoa(k)})
+				default:
+					rootToks = append(rootToks, tplTok{kind: 0, text: r.Pick(litPool)})
+				}
+			}
 		} else {
 			rootToks = genTokens(r, router, nroot, false, used)
 		}
+		prevRoot = rootToks
 		root := renderPath(rootToks, r)
 		key := strings.Trim(root, "/")
 		if seenRoot[root] || seenRoot[key] {
@@ -335,6 +354,23 @@ func genTable(r *Rng, router int, maxWs int) (TableSpec, []genRoute) {
 			sv.Routes = append(sv.Routes, rs)
 			all = append(all, genRoute{spec: rs, toks: append(append([]tplTok{}, rootToks...), toks...)})
 		}
+		if crossedRoot && len(t.Services) > 0 && r.Pct(60) {
+			// the crossing service also offers the previous service's routes, so that one URL can be meant for both
+			prev := t.Services[len(t.Services)-1]
+			for _, pr := range prev.Routes {
+				rs := pr
+				rs.ID = id
+				id++
+				sv.Routes = append(sv.Routes, rs)
+				for _, g := range all {
+					if g.spec.ID == pr.ID {
+						all = append(all, genRoute{spec: rs, toks: append(append([]tplTok{}, rootToks...), g.toks[len(prevRootOf):]...)})
+						break
+					}
+				}
+			}
+		}
+		prevRootOf = rootToks
 		t.Services = append(t.Services, sv)
 	}
 	return t, all
